@@ -52,7 +52,9 @@ EXPECTED = {
     "bad_var": (of_errors.VariableNotFoundError,),
     "bad_entity": (ValueError,),
     "bad_period": (ValueError,),
-    "bad_period_long": (ValueError,),
+    # the formula runs for the long period before the value is refused at store time:
+    # in a cyclic world it may meet the true cycle first
+    "bad_period_long": (ValueError, of_errors.CycleError),
     "add_divide": (IncompatibleOptionsError,),
     "bad_option": (InvalidOptionError,),
     "undef_param": (of_errors.ParameterNotFoundError,),
